@@ -14,7 +14,7 @@ def run(rep):
                 'non-overlapping ordered frame ranges (equal length when requested). Where the boundaries fall is not checked.')
     rep.assumptions = ['n_parts <= number of events (stated in the property) and <= frames-1 for trajectories',
                        'all frames of a trajectory are distinct (jitter), so a part matches exactly one frame range']
-    sc.leg_m(rep, 'C19', [(5, 2, 1, 2)] if quick else [(7, 2, 1, 3), (5, 3, 1, 2)])
+    sc.leg_m(rep, 'C19', [(5, 2, 1, 3)] if quick else [(7, 2, 1, 3), (5, 3, 1, 2)])
     sc.leg_b(rep, 'C19', 30 if quick else 300, 40 if quick else 60, 3 if quick else 4, 4 if quick else 5,
-             list(gen.FAMILIES), ms=(0, 2), ks=(1, 2, 3, 4, 7))
+             list(gen.FAMILIES), ms=(0, 3, 6), ks=(1, 2, 3, 4, 7))
     rep.exhaustive = True
